@@ -283,7 +283,8 @@ class DirectCollocation(SamplingMethod):
             is_states = depends_on(var, stage.x)
             opti_initial = opti.initial()
             if is_numeric(expr):
-                value = ca.evalf(expr)
+                # (structural zeros of a sparse guess are zeros)
+                value = ca.densify(ca.evalf(expr))
                 # Row vector if vector
                 if value.is_column() and var.is_scalar(): value = value.T
                 if is_states:
